@@ -217,7 +217,8 @@ static int scan_cb(YR_SCAN_CONTEXT* ctx, int message, void* data, void* ud)
         fprintf(out, "%s{\"id\":", first ? "" : ",");
         jcstr(s->identifier);
         fputs(",\"m\":[", out);
-        yr_string_matches_foreach(ctx, s, m)
+        /* raw list walk: yr_string_matches_foreach hides the matches of private strings */
+        for (m = ctx->matches[s->idx].head; m != NULL; m = m->next)
         {
           fprintf(out, "%s[%lld,%d,%d,%d]", fm ? "" : ",", (long long) (m->base + m->offset), m->match_length,
                   m->xor_key, m->is_private ? 1 : 0);
